@@ -56,3 +56,46 @@ C[MB + '_variable_mods_builder'] = dict(
     ensures=[('at-most-max-mods-more-modified-residues-residues-and-other-annotations-kept',
               'forall(lambda t=Annotation: implies(count(result, t) > 0, t.count_modified_residues() <= max_mods + annotation.count_modified_residues() and '
               "rest_same(t, annotation) and implies(mode == 'skip', forall(lambda j: implies(im_has(annotation, j), pos_same(t, annotation, j))))))")])
+
+# ---------------------------------------------------------------- the static builder (first sentence of C13), residue rules only
+C['peptacular.proforma.input_convert:fix_list_of_mods'] = dict(params=dict(mods='ModList'), returns='ModList', pure=True, trusted=True,
+                                                               bounded_by='input normalisation of an already normal list: bounded/C13.py', ensures=[])
+C[PA + 'copy'] = dict(params=dict(self='Annotation'), returns='Annotation', pure=True, trusted=True,
+                      bounded_by='proved in contracts/equality.py (C20)', ensures=[('equal-value', 'same(result, self)')])
+C.update({k: v for k, v in accessor_contracts().items() if k.split('.')[-1] in ('has_nterm_mods', 'has_cterm_mods')})
+for _t in ('nterm', 'cterm'):
+    C[PA + 'add_%s_mods' % _t] = dict(params=dict(self='Annotation', mods='ModList', append='bool'), returns='None', mutates=['self'], trusted=True,
+                                      bounded_by='terminal stores: not reachable in the residue-rules specialisation (the terminal rule maps are empty); bounded/C13.py', ensures=[], raises={})
+# a position is matched by the rules: some rule (whose normalised modification list is not empty) has it among its regex matches
+_MATCHED = ('exists(lambda r=str: internal_mods is not None and (r in some(internal_mods)) and (True if fix_list_of_mods(some(internal_mods)[r]) else False) and '
+            'count(get_regex_match_indices(sequence._sequence, r, -1), j) > 0)')
+C[MB + 'apply_static_mods@residues'] = dict(
+    params=dict(sequence='Annotation', internal_mods='Optional[Dict[str,ModList]]', nterm_mods='None', cterm_mods='None', mode='str', return_type='str'),
+    specialize=dict(return_type='annotation'), returns='Annotation', pure=True,
+    locals=dict(internal_mods='Dict[str,ModList]', nterm_mods='Dict[str,ModList]', cterm_mods='Dict[str,ModList]'),
+    raises={'ValueError': "mode != 'skip' and mode != 'append' and mode != 'overwrite'"}, raises_inexact=True,
+    ensures=[('residues-and-every-other-annotation-kept', 'rest_same(result, sequence)'),
+             ('unmatched-positions-untouched', 'forall(lambda j: implies(not ' + _MATCHED + ', pos_same(result, sequence, j)))'),
+             ('skip-mode-keeps-existing-modifications', "implies(mode == 'skip', forall(lambda j: implies(im_has(sequence, j), pos_same(result, sequence, j))))"),
+             ('every-matched-position-is-modified', 'forall(lambda j: implies(' + _MATCHED + ', im_has(result, j)))')],
+    invariants={
+        0: [('rest', 'rest_same(new_annotation, sequence)'),
+            ('unmatched-so-far', 'forall(lambda j: implies(not exists(lambda r=str: (r in _seen0) and count(get_regex_match_indices(sequence._sequence, r, -1), j) > 0), '
+                                 'pos_same(new_annotation, sequence, j)))'),
+            ('skip', "implies(mode == 'skip', forall(lambda j: implies(im_has(sequence, j), pos_same(new_annotation, sequence, j))))"),
+            ('matched-so-far', 'forall(lambda j: implies(exists(lambda r=str: (r in _seen0) and count(get_regex_match_indices(sequence._sequence, r, -1), j) > 0), im_has(new_annotation, j)))'),
+            ('existing-stay-modified', 'forall(lambda j: implies(im_has(sequence, j), im_has(new_annotation, j)))')],
+        1: [('rest', 'rest_same(new_annotation, sequence)'),
+            ('unmatched-so-far', 'forall(lambda j: implies(not exists(lambda r=str: (r in _seen0) and count(get_regex_match_indices(sequence._sequence, r, -1), j) > 0) and '
+                                 'not count(_done1, j) > 0, pos_same(new_annotation, sequence, j)))'),
+            ('skip', "implies(mode == 'skip', forall(lambda j: implies(im_has(sequence, j), pos_same(new_annotation, sequence, j))))"),
+            ('matched-so-far', 'forall(lambda j: implies(exists(lambda r=str: (r in _seen0) and count(get_regex_match_indices(sequence._sequence, r, -1), j) > 0) or '
+                               'count(_done1, j) > 0, im_has(new_annotation, j)))'),
+            ('existing-stay-modified', 'forall(lambda j: implies(im_has(sequence, j), im_has(new_annotation, j)))')],
+        # the terminal rule maps are empty in this specialisation: their loops do nothing
+        2: [('no-terminal-rules', 'same(new_annotation, new_annotation_at2) and forall(lambda r=str: not (r in nterm_mods))')],
+        3: [('no-terminal-rules', 'same(new_annotation, new_annotation_at3) and forall(lambda r=str: not (r in nterm_mods))')],
+        4: [('no-terminal-rules', 'same(new_annotation, new_annotation_at4) and forall(lambda r=str: not (r in cterm_mods))')],
+        5: [('no-terminal-rules', 'same(new_annotation, new_annotation_at5) and forall(lambda r=str: not (r in cterm_mods))')],
+    },
+)
